@@ -26,6 +26,11 @@ for prop in props:
             rec = json.load(open(rp))
             out = rec.get("replay_output", "")
             ok = confirmed is False
+            known_open = any(k.get("property") == prop and k.get("status", "open") == "open" and k.get("obligation") == name for k in chk.load_known())
+            if confirmed and known_open:
+                # the replay of an OPEN known finding is supposed to reproduce it on this tree
+                print("%s %-70s %s" % (prop, name[:70], "confirms (open known finding, expected)"))
+                continue
             print("%s %-70s %s" % (prop, name[:70], "pass" if ok else ("CONFIRMS-ON-THIS-TREE" if confirmed else "DID-NOT-RUN-CLEANLY")))
             if not ok:
                 bad += 1
